@@ -17,6 +17,7 @@ import (
 	"github.com/prometheus/prometheus/model/labels"
 	"github.com/prometheus/prometheus/promql"
 	"github.com/prometheus/prometheus/promql/parser"
+	"strconv"
 	"strings"
 	"time"
 )
@@ -336,15 +337,51 @@ func (q *QueryLabelsService) Series(ctx context.Context, requests []string, star
 				logger.Error(err)
 				break
 			}
+			// the stored text is decoded and encoded again, never spliced: one row that is
+			// not JSON would make the whole response unreadable
+			m, err := storedLabels(lbls)
+			if err != nil {
+				logger.Error(err)
+				continue
+			}
+			bLbls, _ := json.Marshal(m)
 			if i != 0 {
 				res <- ","
 			}
-			res <- lbls
+			res <- string(bLbls)
 			i++
 		}
 		res <- `]}`
 	}()
 	return res, nil
+}
+
+// storedLabels decodes a label document of time_series: JSON, or names and values quoted
+// with strconv.Quote (rows whose labels hold bytes that Go escapes as \x01, \a, \v, \U000e0001:
+// no JSON reader accepts those).
+func storedLabels(doc string) (map[string]string, error) {
+	m := map[string]string{}
+	if json.Unmarshal([]byte(doc), &m) == nil && m != nil {
+		return m, nil
+	}
+	m = map[string]string{}
+	rest := strings.TrimPrefix(strings.TrimSpace(doc), "{")
+	for len(rest) > 0 && rest[0] == '"' {
+		var kv [2]string
+		for j := range kv {
+			q, err := strconv.QuotedPrefix(rest)
+			if err != nil {
+				return nil, err
+			}
+			kv[j], _ = strconv.Unquote(q)
+			rest = strings.TrimLeft(rest[len(q):], ":, ")
+		}
+		m[kv[0]] = kv[1]
+	}
+	if rest != "}" {
+		return nil, fmt.Errorf("malformed label document %q", doc)
+	}
+	return m, nil
 }
 
 func (q *QueryLabelsService) querySeries(requests []string) (shared.SQLRequestPlanner, error) {
